@@ -17,6 +17,11 @@ func (m *ModuleInstance) FailIfClosed() (err error) {
 		case exitCodeFlagResourceNotClosed:
 			// This happens when this module is closed asynchronously in CloseModuleOnCanceledOrTimeout,
 			// and the closure of resources have been deferred here.
+			// Several calls into the module can arrive here at the same time (each call that was in flight,
+			// and any later one): only the one that moves the flag to "resources closed" releases them.
+			if !m.Closed.CompareAndSwap(closed, closed&^exitCodeFlagMask|exitCodeFlagResourceClosed) {
+				break
+			}
 			_ = m.ensureResourcesClosed(context.Background())
 		}
 		return sys.NewExitError(uint32(closed >> 32)) // Unpack the high order bits as the exit code.
